@@ -157,6 +157,13 @@ def run(ctx):
                   'score_current is assigned from something other than the accepted payload / itself / the initial '
                   'score: %s' % bad)
         rep.floor('R5', 'definition sources of score_current', len({s[0] for s in srcs}), 2)
+        # the score a proposal is compared with is the RUNNING score: inside the proposal loop it takes the accepted payload
+        # (a value frozen at the start of the loop would accept every proposal that beats the loop's first score)
+        inner_srcs = _sources(b, oa, sc, within=oa.inner['body'])
+        rep.check(any(s2[0] == 'accepted-payload' for s2 in inner_srcs), 'R5', 'compared-score-is-updated-on-acceptance',
+                  where(b, oa.decision_bb), 'inside the proposal loop the compared score takes the accepted payload',
+                  'the score passed to the decision as the current one is never updated with an accepted score inside the '
+                  'proposal loop (it is fixed for the whole loop): later proposals are compared with a stale score')
         rep.sample('%s: score_current=_%d defined from %s' % (b.path, sc, sorted({s[0] for s in srcs})))
 
 
@@ -205,8 +212,9 @@ def _same_value(b, cfg, defs, i1, i2, bb1, bb2, loop):
     return False, 'index shape not recognised'
 
 
-def _sources(b, oa, sc):
-    """Classify every definition that can flow into local sc (flow-insensitive, through copies, tuples and fields)."""
+def _sources(b, oa, sc, within=None):
+    """Classify every definition that can flow into local sc (flow-insensitive, through copies, tuples and fields).  With
+    `within` only definitions located in those blocks are followed (what can flow into sc without leaving a loop)."""
     defs = oa.defs
     out = []
     seen = set()
@@ -261,6 +269,9 @@ def _sources(b, oa, sc):
         for (bi, si, kind, payload) in defs.of(l):
             if bi not in oa.cfg.reach:
                 continue
+            if within is not None and bi not in within:
+                n += 1
+                continue
             n += 1
             if kind == 'call':
                 if call_matches(payload, 'Option::<T>::expect', 'Option::<T>::unwrap') and not fp:
@@ -279,7 +290,7 @@ def _sources(b, oa, sc):
                 continue
             rvalue(payload, fp, bi)
         for (bi, si, pl, rv) in defs.pwrites.get(l, []):
-            if bi not in oa.cfg.reach:
+            if bi not in oa.cfg.reach or (within is not None and bi not in within):
                 continue
             wp = tuple(field_path(pl['p']))
             fpx = tuple(x for x in fp if not x.startswith('#'))
